@@ -31,7 +31,7 @@ T = {
          "Each stream is decoded with 2,3,4,8 (thorough up to 16) threads under perturbed schedules and must equal the single-thread pictures; teardown must return; ASan must be silent; TSan runs with per-address release/acquire annotations at the 77 hand-off sites so that only accesses the intended protocol does not order are reported; distinct hand-off interleavings are counted from the trace.",
          "'Any interleaving' is sampled (80 distinct hand-off orders in the quick tier). The hand-off itself being a C11 race is one known finding."),
  "C10": ("deterministic structured mutation fuzzing of svt_av1_dec_frame on the ASan+UBSan decoder build, regression corpus replay", "3/C10",
-         "One decoder session per input (init, frame(s), get_picture, teardown) on exact-size heap copies; quick = the committed corpus (134 seeds, 49 reproducers) + 20000 fresh mutants from an 18-strategy mutator seeded by VERIF_SEED (both framings, multi-call records, 16-bit pipeline); any ASan report, non-benign UBSan report, abort, or reproducible stall is a violation. Single allocations are capped at 512 MB (allocator returns NULL) so that mutated headers declaring gigantic pictures are cheap and exercise the allocation-failure path instead of minutes of memset.",
+         "One decoder session per input (init, frame(s), get_picture, teardown) on exact-size heap copies; quick = the committed corpus (134 seeds, 51 reproducers) + 20000 fresh mutants from an 18-strategy mutator seeded by VERIF_SEED (both framings, multi-call records, 16-bit pipeline); any ASan report, non-benign UBSan report, abort, or reproducible stall is a violation. Single allocations are capped at 512 MB (allocator returns NULL) so that mutated headers declaring gigantic pictures are cheap and exercise the allocation-failure path instead of minutes of memset.",
          "Single-threaded decoder as the property states. A libFuzzer target exists for campaigns; the registered check uses the deterministic Python mutator."),
  "C11": ("full encodes on the ASan+UBSan build over a fixed list of extremes (thorough: plus random accepted configurations); reports keyed by site", "3/C11",
          "Every case runs init..EOS..teardown on the clang ASan+UBSan build (recover mode, one process per case): any ASan report, any UBSan report outside the audited benign list, any error packet, crash or reproducible hang is a violation; reports are keyed by (tool, kind, innermost library function) and matched against the known-findings list, which was filled from campaigns of 120+250(+250) random cases (the encoder has a long tail of latent reports: 26, then 14 more reporting functions).",
